@@ -110,11 +110,22 @@ impl Env {
         let mut w = World::new();
         let admin = key("admin");
         let all_roles: Vec<&str> = STORE_ROLES.iter().chain(OTHER_ROLES.iter()).copied().collect();
-        let store = st::bootstrap(&mut w, &admin, &all_roles, &[]);
+        // The role table is written with the real `Store` methods, not with the enable_role / grant_role
+        // instructions, and every set-up instruction below is signed by the store authority while it
+        // temporarily holds EVERY role: a weakened or changed access check on a set-up instruction
+        // therefore cannot break the construction of the world (it shows up in the measurement).
+        let mut empty = w.clone();
+        let (store, init_ok) = st::bootstrap_fab(&mut w, &admin, &all_roles, &[]);
+        if !init_ok {
+            eprintln!("note: `initialize` was rejected for the store authority; store fabricated with Store::init");
+        }
+        for r in &all_roles {
+            assert!(st::fab_grant_role(&mut w, &store, &admin, r), "Store::grant {r} to admin");
+        }
         let mut classes = vec![("admin".to_string(), admin), ("none".to_string(), key("signer-none"))];
         for r in &all_roles {
             let k = key(&format!("signer-{r}"));
-            must("grant", st::grant_role(&mut w, &store, &admin, &k, r));
+            assert!(st::fab_grant_role(&mut w, &store, &k, r), "Store::grant {r}");
             classes.push((format!("role:{r}"), k));
         }
         for k in ["owner-next-auth", "owner-recv", "owner-recv2", "owner-buf", "u1", "u2", "stranger"] {
@@ -123,7 +134,7 @@ impl Env {
         for (_, k) in &classes {
             w.airdrop(k, 1_000_000_000_000);
         }
-        let creator = key("creator");
+        let creator = admin;
         let m = mk::setup_market(&mut w, &store, &admin, &creator, "c19");
         // a second token map, spare mints (x: in the token map with a vault, y: fresh)
         let token_map2 = key("token_map2");
@@ -327,7 +338,7 @@ impl Env {
             let boot = key("tl-boot");
             x.airdrop(&boot, 1_000_000_000_000);
             for r in [gmsol_timelock::roles::TIMELOCK_ADMIN, gmsol_timelock::roles::TIMELOCK_KEEPER, gmsol_timelock::roles::TIMELOCKED_ADMIN] {
-                must("grant boot", st::grant_role(&mut x, &store, &admin, &boot, r));
+                assert!(st::fab_grant_role(&mut x, &store, &boot, r), "Store::grant {r} to tl-boot");
             }
             let r = x.execute(&ix_tl_init_config(&env0, boot), &[boot]);
             if r.ok {
@@ -336,6 +347,16 @@ impl Env {
                 eprintln!("note: timelock initialize_config bootstrap failed: {} {:?}", r.err_name, r.runtime_error);
             }
         }
+        // measurement worlds: the store authority holds no role any more
+        for x in worlds.values_mut() {
+            for r in &all_roles {
+                let _ = st::fab_revoke_role(x, &store, &admin, r);
+            }
+        }
+        for (_, k) in &classes {
+            empty.airdrop(k, 1_000_000_000_000);
+        }
+        worlds.insert("empty", empty);
         Env { worlds, ..env0 }
     }
 }
@@ -419,6 +440,29 @@ fn cases(env: &Env) -> Vec<Case> {
     use gmsol_store::instruction as I;
     let mut v: Vec<Case> = Vec::new();
     let sys = system_program::ID;
+    // ---- open set-up instructions (anyone, by design)
+    case!(v, "store.initialize", "empty", None, |_e, a| (
+        st::ix(
+            A::Initialize { payer: a, authority: None, receiver: None, holding: None, store: st::store_pda(""), system_program: sys },
+            I::Initialize { key: String::new() }
+        ),
+        vec![]
+    ));
+    case!(v, "store.initialize_token_map", "base", None, |e, a| {
+        let tm = key(&format!("tm-{a}"));
+        (st::ix(A::InitializeTokenMap { payer: a, store: e.store, token_map: tm, system_program: sys }, I::InitializeTokenMap {}), vec![tm])
+    });
+    case!(v, "store.prepare_user", "base", None, |e, a| (
+        st::ix(A::PrepareUser { owner: a, store: e.store, user: st::user_pda(&e.store, &a), system_program: sys }, I::PrepareUser {}),
+        vec![]
+    ));
+    case!(v, "store.initialize_market_config_buffer", "base", None, |e, a| {
+        let b = key(&format!("newbuf-{a}"));
+        (
+            st::ix(A::InitializeMarketConfigBuffer { authority: a, store: e.store, buffer: b, system_program: sys }, I::InitializeMarketConfigBuffer { expire_after_secs: 60 }),
+            vec![b],
+        )
+    });
     // ---- store / roles (Admin)
     case!(v, "store.update_last_restarted_slot", "base", None, |e, a| (st::ix(A::UpdateLastRestartedSlot { authority: a, store: e.store }, I::UpdateLastRestartedSlot {}), vec![]));
     case!(v, "store.transfer_store_authority", "base", None, |e, a| (ix_transfer_store_authority(e, a, key("someone")), vec![]));
